@@ -42,7 +42,7 @@ func (eng) CoqRequire(mode string) string {
 func (eng) CoqCaseType(mode string) string { return "Check_batching.case" }
 func (eng) CoqRun(mode string) string      { return "Check_batching.run" }
 func (eng) Rule(mode string) string {
-	return "batcher cases: random histories of Add/IsFull/Flush(CurrentBatch | current, stale, future, negative token)/timer expiry, sizes 0..5, with and without delay, flush results read back only at the end of the history (aliasing); reorder cases: stimuli add/flush/fire/hold-adder/hold-timeout/release/complete-k/read over max sizes 0..4, buffer sizes 0..4, including the pattern 'time-out flusher held between Flush and Reserve while the adder fills and flushes the next batch', completions in generated order, settled at the end; hammer cases: 2..4 adders x 20..60 items against 1..2 concurrent flushers. Non-trivial: at least two non-empty batches were handed out (batcher: two non-empty Flush results; reorder: two fetches; hammer: two batches); distinct by hash of the case."
+	return "batcher cases: random histories of Add/IsFull/Flush(CurrentBatch | current, stale, future, negative token | the token received last)/timer expiry/late callbacks (expiry committed, the batch handed out and the next one started before the old callback sends its token), sizes 0..5, with and without delay, flush results read back only at the end of the history (aliasing); reorder cases: stimuli add/flush/fire/hold-adder/hold-timeout/release/complete-k/read over max sizes 0..4, buffer sizes 0..4, including the pattern 'time-out flusher held between Flush and Reserve while the adder fills and flushes the next batch', completions in generated order, settled at the end; hammer cases: 2..4 adders x 20..60 items against 1..2 concurrent flushers. Non-trivial: at least two non-empty batches were handed out (batcher: two non-empty Flush results; reorder: two fetches; hammer: two batches); distinct by hash of the case."
 }
 
 type op struct {
@@ -149,15 +149,29 @@ func allBlocked(dump []byte, self int64) bool {
 }
 
 // recTimer is clocks.FakeTimer plus a record of whether a callback is set (FakeTimer.Trigger on an unset timer would call nil).
+// It also keeps the callback it was last given, so that the harness can commit an expiry now and let the callback run later
+// ("late callback": with time.AfterFunc a callback already started or queued still runs after Stop returned false).
+type lateCallback struct {
+	do     func()
+	armGen int // number of non-empty batches handed out when the callback was set
+}
+
 type recTimer struct {
 	clocks.FakeTimer
-	mu    sync.Mutex
-	armed bool
+	mu        sync.Mutex
+	armed     bool
+	cur       lateCallback
+	gen       *int // harness counter of non-empty batches handed out (batcher cases only)
+	committed []lateCallback
 }
 
 func (t *recTimer) Set(d time.Duration, do func()) {
 	t.mu.Lock()
 	t.armed = true
+	t.cur = lateCallback{do: do}
+	if t.gen != nil {
+		t.cur.armGen = *t.gen
+	}
 	t.mu.Unlock()
 	t.FakeTimer.Set(d, do)
 }
@@ -166,6 +180,17 @@ func (t *recTimer) Stop() {
 	t.armed = false
 	t.mu.Unlock()
 	t.FakeTimer.Stop()
+}
+
+// commit: the timer has expired and the callback now set is going to run, whatever Stop does afterwards.
+func (t *recTimer) commit() bool {
+	t.mu.Lock()
+	defer t.mu.Unlock()
+	if !t.armed {
+		return false
+	}
+	t.committed = append(t.committed, t.cur)
+	return true
 }
 func (t *recTimer) isArmed() bool { t.mu.Lock(); defer t.mu.Unlock(); return t.armed }
 
@@ -219,21 +244,26 @@ func execBatcher(c *hx.Case) (*hx.Result, error) {
 	maxSize, delay := paramInt(c, "max", 2), paramInt(c, "delay", 1)
 	ctx, cancel := context.WithCancel(context.Background())
 	defer cancel()
-	timer := &recTimer{}
+	flushes := 0
+	timer := &recTimer{gen: &flushes}
 	b := batching.NewEventBatcher[int](ctx, batching.EventBatcherParams{MaxDelay: delayOf(delay), MaxSize: maxSize, Timer: timer})
 	type rec struct {
-		op    op
-		full  bool
-		res   []int // kept by reference and read at the end: a batch handed out must not change afterwards
-		fired *int64
+		op     op
+		full   bool
+		res    []int // kept by reference and read at the end: a batch handed out must not change afterwards
+		fired  *int64
+		tok    int64 // token passed to Flush
+		armed  bool  // expire: a callback was set
+		idx    int   // deliver: which committed callback
+		armGen int
 	}
+	lastTok, haveTok, late := int64(0), false, 0
 	var recs []*rec
 	nonEmpty, fired, staleTok := 0, 0, 0
 	// the history always ends with a Flush(CurrentBatch) so the remainder becomes observable
 	ops = append(append([]op{}, ops...), op{K: "flush"})
-	flushes := 0
 	for _, o := range ops {
-		r := &rec{op: o}
+		r := &rec{op: o, tok: int64(o.X)}
 		switch o.K {
 		case "add":
 			b.Add(o.X)
@@ -246,12 +276,39 @@ func execBatcher(c *hx.Case) (*hx.Result, error) {
 			if o.X != -1 && o.X != flushes {
 				staleTok++
 			}
+		case "flushlast": // the consumer's move: Flush with the token it received last
+			if !haveTok {
+				continue
+			}
+			r.op.K, r.tok = "flushtok", lastTok
+			r.res = b.Flush(batching.BatchToken(lastTok))
+			if lastTok != int64(flushes) {
+				staleTok++
+			}
 		case "fire":
 			if timer.isArmed() {
 				go timer.Trigger()
 				tok := int64(<-b.BatchTimedOut)
 				r.fired = &tok
 				fired++
+				lastTok, haveTok = tok, true
+			}
+		case "expire":
+			r.armed = timer.commit()
+		case "deliver":
+			if len(timer.committed) == 0 {
+				continue
+			}
+			r.idx = o.X % len(timer.committed)
+			cb := timer.committed[r.idx]
+			timer.committed = append(timer.committed[:r.idx:r.idx], timer.committed[r.idx+1:]...)
+			r.armGen = cb.armGen
+			go cb.do() // the real closure EventBatcher.Add gave to the timer
+			tok := int64(<-b.BatchTimedOut)
+			r.fired = &tok
+			lastTok, haveTok = tok, true
+			if cb.armGen < flushes {
+				late++
 			}
 		default:
 			return nil, fmt.Errorf("unknown batcher op %q", o.K)
@@ -275,8 +332,14 @@ func execBatcher(c *hx.Case) (*hx.Result, error) {
 			items = append(items, fmt.Sprintf("OFlush (-1)%%Z %s", coqNList(r.res)))
 			obs = append(obs, append([]int{}, r.res...))
 		case "flushtok":
-			items = append(items, fmt.Sprintf("OFlush %s %s", hx.CoqZ(int64(r.op.X)), coqNList(r.res)))
-			obs = append(obs, append([]int{}, r.res...))
+			items = append(items, fmt.Sprintf("OFlush %s %s", hx.CoqZ(r.tok), coqNList(r.res)))
+			obs = append(obs, map[string]any{"flush_token": r.tok, "got": append([]int{}, r.res...)})
+		case "expire":
+			items = append(items, "OExpire "+hx.CoqBool(r.armed))
+			obs = append(obs, map[string]any{"expire_armed": r.armed})
+		case "deliver":
+			items = append(items, fmt.Sprintf("ODeliver %d %d %s", r.idx, r.armGen, hx.CoqZ(*r.fired)))
+			obs = append(obs, map[string]any{"late_callback_set_in_generation": r.armGen, "delivered_token": *r.fired})
 		case "fire":
 			if r.fired == nil {
 				items = append(items, "OFire None")
@@ -294,6 +357,9 @@ func execBatcher(c *hx.Case) (*hx.Result, error) {
 	}
 	if staleTok > 0 {
 		tags = append(tags, "b.stale-or-foreign-token")
+	}
+	if late > 0 {
+		tags = append(tags, "b.late-callback-of-flushed-batch")
 	}
 	if nonEmpty >= 2 {
 		tags = append(tags, "b.batches>=2")
@@ -751,7 +817,7 @@ func genBatcher(r *hx.Rand) *hx.Case {
 			if blen > 0 {
 				blen, tok = 0, tok+1
 			}
-		case x < 85:
+		case x < 82:
 			var t int
 			switch y := r.Intn(10); {
 			case y < 3 && len(delivered) > 0:
@@ -771,11 +837,32 @@ func genBatcher(r *hx.Rand) *hx.Case {
 			if blen > 0 && (t == -1 || t == tok) {
 				blen, tok = 0, tok+1
 			}
-		default:
+		case x < 90:
 			ops = append(ops, op{K: "fire"})
 			if blen > 0 && delay > 0 {
 				delivered = append(delivered, tok)
 			}
+		case x < 94:
+			ops = append(ops, op{K: "expire"})
+		case x < 97:
+			ops = append(ops, op{K: "deliver", X: r.Intn(4)})
+		default:
+			ops = append(ops, op{K: "flushlast"})
+		}
+		if r.Chance(1, 12) {
+			// the late callback: the timer of this batch expires, the batch is handed out anyway (size / explicit flush),
+			// the next batch is started, and only then the old callback gets to send its token
+			item++
+			ops = append(ops, op{K: "add", X: item}, op{K: "expire"}, op{K: "flush"})
+			if blen+1 > 0 {
+				blen, tok = 0, tok+1
+			}
+			for k := r.Intn(3); k >= 0; k-- {
+				item++
+				ops = append(ops, op{K: "add", X: item})
+				blen++
+			}
+			ops = append(ops, op{K: "deliver", X: r.Intn(3)}, op{K: "flushlast"})
 		}
 	}
 	return mkCase("batcher", map[string]any{"max": maxSize, "delay": delay}, ops)
